@@ -18,6 +18,7 @@ import (
 	"go/ast"
 	"go/token"
 	"go/types"
+	"sort"
 	"strings"
 
 	"golang.org/x/tools/go/packages"
@@ -76,11 +77,24 @@ func checkC15(r *Run) propMeta {
 	r.Floor("C15-R1-cached-set-readonly", 8)
 
 	// ---- R4 roles
-	for _, name := range []string{"ReachabilityCache.cacheComponentReach", "ReachabilityCache.cachedComponentReach"} {
-		fd := decls[name]
-		if fd == nil {
-			r.Undecide("C15-R4: %s not found", name)
-			continue
+	r4roles := findReachRoles(p)
+	var r4decls []*ast.FuncDecl
+	for _, fd := range r4roles.writers {
+		r4decls = append(r4decls, fd)
+	}
+	for _, fd := range r4roles.readers {
+		r4decls = append(r4decls, fd)
+	}
+	sort.Slice(r4decls, func(i, j int) bool { return r4decls[i].Pos() < r4decls[j].Pos() })
+	if len(r4roles.writers) == 0 || len(r4roles.readers) == 0 {
+		r.Undecide("C15-R4: the component-reach cache has %d writer(s) and %d reader(s) in package algo", len(r4roles.writers), len(r4roles.readers))
+	}
+	for _, fd := range r4decls {
+		name := funcDeclName(fd)
+		if _, isWriter := r4roles.writers[info.Defs[fd.Name].(*types.Func)]; isWriter {
+			name = "ReachabilityCache.cacheComponentReach"
+		} else {
+			name = "ReachabilityCache.cachedComponentReach"
 		}
 		var sw *ast.SwitchStmt
 		ast.Inspect(fd.Body, func(n ast.Node) bool {
@@ -152,14 +166,15 @@ func checkC15(r *Run) propMeta {
 
 func checkReachSearchLoop(r *Run, p *packages.Package, decls map[string]*ast.FuncDecl) {
 	info := p.TypesInfo
-	fd := decls["ReachabilityCache.componentReachDFS"]
-	if fd == nil {
-		r.Undecide("C15-R2: ReachabilityCache.componentReachDFS not found")
+	roles := findReachRoles(p)
+	fd := roles.search
+	if fd == nil || roles.cursor == nil {
+		r.Undecide("C15-R2: the reach search (a function of package algo that constructs cursors and writes a component-reach cache) was not found")
 		return
 	}
 	// the function is read with its package-level and receiver helpers inlined (a branch that merges the cached reach
 	// through a helper is the same branch) and with tagless switches spelled as if/else chains
-	vocabulary := map[string]bool{"cacheComponentReach": true, "cachedComponentReach": true, "newReachCursor": true, "newRootReachCursor": true}
+
 	// a helper is worth reading only if it does something the rule speaks about: reads or writes the cache, creates a
 	// cursor, merges a reach set, or writes a boolean mark of a cursor
 	var relevant func(hd *ast.FuncDecl, depth int) bool
@@ -169,7 +184,7 @@ func checkReachSearchLoop(r *Run, p *packages.Package, decls map[string]*ast.Fun
 			switch x := n.(type) {
 			case *ast.CallExpr:
 				if fn := calleeOf(info, x); fn != nil {
-					if vocabulary[fn.Name()] {
+					if roles.isVocabulary(fn) {
 						found = true
 					} else if fn.Pkg() == p.Types && depth < 2 {
 						if inner := decls[declKeyOf(fn)]; inner != nil && inner != hd && inner.Body != nil && relevant(inner, depth+1) {
@@ -196,7 +211,7 @@ func checkReachSearchLoop(r *Run, p *packages.Package, decls map[string]*ast.Fun
 		return found
 	}
 	inlBody, _ := inlineCallsOpt(p, fd, fd.Body, 2, func(fn *types.Func) bool {
-		if vocabulary[fn.Name()] {
+		if roles.isVocabulary(fn) {
 			return true
 		}
 		hd := decls[declKeyOf(fn)]
@@ -252,15 +267,13 @@ func checkReachSearchLoop(r *Run, p *packages.Package, decls map[string]*ast.Fun
 		r.Undecide("C15-R2: the first branch of the search loop is not the `!hasNext` (cursor exhausted) branch")
 		return
 	}
-	isCall := func(n ast.Node, name string) *ast.CallExpr {
-		var found *ast.CallExpr
+	isRootCtorCall := func(n ast.Node) bool {
+		found := false
 		ast.Inspect(n, func(m ast.Node) bool {
-			if c, ok := m.(*ast.CallExpr); ok && found == nil {
-				if fn := calleeOf(info, c); fn != nil && fn.Name() == name {
-					found = c
-				}
+			if c, ok := m.(*ast.CallExpr); ok && roles.isRootCtor(calleeOf(info, c)) {
+				found = true
 			}
-			return true
+			return !found
 		})
 		return found
 	}
@@ -268,7 +281,7 @@ func checkReachSearchLoop(r *Run, p *packages.Package, decls map[string]*ast.Fun
 	var writes []*ast.CallExpr
 	ast.Inspect(&ast.BlockStmt{List: bodyList}, func(n ast.Node) bool {
 		if c, ok := n.(*ast.CallExpr); ok {
-			if fn := calleeOf(info, c); fn != nil && fn.Name() == "cacheComponentReach" {
+			if fn := calleeOf(info, c); roles.isWriter(fn) {
 				writes = append(writes, c)
 			}
 		}
@@ -310,12 +323,12 @@ func checkReachSearchLoop(r *Run, p *packages.Package, decls map[string]*ast.Fun
 	ast.Inspect(&ast.BlockStmt{List: bodyList}, func(n ast.Node) bool {
 		if vs, ok := n.(*ast.ValueSpec); ok {
 			for i, nm := range vs.Names {
-				if i < len(vs.Values) && isCall(vs.Values[i], "newRootReachCursor") != nil {
+				if i < len(vs.Values) && isRootCtorCall(vs.Values[i]) {
 					rootObj = info.Defs[nm]
 				}
 			}
 		}
-		if a, ok := n.(*ast.AssignStmt); ok && len(a.Lhs) == 1 && len(a.Rhs) == 1 && isCall(a.Rhs[0], "newRootReachCursor") != nil {
+		if a, ok := n.(*ast.AssignStmt); ok && len(a.Lhs) == 1 && len(a.Rhs) == 1 && isRootCtorCall(a.Rhs[0]) {
 			if id, ok := a.Lhs[0].(*ast.Ident); ok {
 				rootObj = info.Defs[id]
 			}
@@ -347,7 +360,7 @@ func checkReachSearchLoop(r *Run, p *packages.Package, decls map[string]*ast.Fun
 				case *ast.FuncLit:
 					return false
 				case *ast.CallExpr:
-					if fn := calleeOf(info, x); fn != nil && fn.Name() == "newReachCursor" {
+					if fn := calleeOf(info, x); roles.isChildCtor(fn) {
 						descends = true
 					}
 					if sel, ok := ast.Unparen(x.Fun).(*ast.SelectorExpr); ok && sel.Sel.Name == "Or" && len(x.Args) == 1 {
@@ -439,15 +452,23 @@ func checkReachSearchLoop(r *Run, p *packages.Package, decls map[string]*ast.Fun
 	} else {
 		r.Pass("C15-R3-cache-complete-reach", "componentReachDFS:gate", writes[0].Pos(), "the cache write is guarded by !%s", gate.Name())
 		// the flag propagates to the ancestor when a partial child is rolled up
-		if cfd := decls["reachCursor.Complete"]; cfd != nil {
-			prop := false
+		// (any method of the cursor type, or function handed a cursor, that writes the mark of another cursor reached
+		// through a field of the first)
+		var propAt *ast.FuncDecl
+		var cursorMethods []*ast.FuncDecl
+		for fn, cfd := range roles.byObj {
+			sig := fn.Type().(*types.Signature)
+			if sig.Recv() == nil || !roles.isCursor(sig.Recv().Type()) {
+				continue
+			}
+			cursorMethods = append(cursorMethods, cfd)
 			ast.Inspect(cfd.Body, func(n ast.Node) bool {
 				if a, ok := n.(*ast.AssignStmt); ok {
 					for _, l := range a.Lhs {
 						if sel, ok := ast.Unparen(l).(*ast.SelectorExpr); ok {
 							if s := info.Selections[sel]; s != nil && s.Obj() == gate {
 								if _, viaAncestor := ast.Unparen(sel.X).(*ast.SelectorExpr); viaAncestor {
-									prop = true
+									propAt = cfd
 								}
 							}
 						}
@@ -455,11 +476,12 @@ func checkReachSearchLoop(r *Run, p *packages.Package, decls map[string]*ast.Fun
 				}
 				return true
 			})
-			if prop {
-				r.Pass("C15-R3-cache-complete-reach", "reachCursor.Complete:propagates", cfd.Pos(), "a partial child marks its ancestor: the ancestor's reach inherits the gap")
-			} else {
-				r.Fail("C15-R3-cache-complete-reach", "reachCursor.Complete:propagates", cfd.Pos(), "Complete() rolls a child's reach into its ancestor without passing on %s: the ancestor inherits the child's incomplete reach and is cached as complete", gate.Name())
-			}
+		}
+		switch {
+		case propAt != nil:
+			r.Pass("C15-R3-cache-complete-reach", "reachCursor.Complete:propagates", propAt.Pos(), "a partial child marks its ancestor: the ancestor's reach inherits the gap")
+		case len(cursorMethods) > 0:
+			r.Fail("C15-R3-cache-complete-reach", "reachCursor.Complete:propagates", cursorMethods[0].Pos(), "no method of the cursor passes %s on to the ancestor when a child's reach is rolled up: the ancestor inherits the child's incomplete reach and is cached as complete", gate.Name())
 		}
 	}
 	if nb < 3 {
